@@ -375,7 +375,14 @@ def run_history(case):
                     want = shadow.get((info[1], info[2]))
                     if want is not None and _deep_list(want) != _deep_list(info[3]):
                         readback.append(i)
-            steps.append({"res": res, "dump": dump_rows(raw)})
+            try:
+                dump = dump_rows(raw)
+            except sqlite3.OperationalError as e:
+                # the harness's own observer connection cannot read the database after a step has RETURNED: whatever
+                # connection did the step still holds a lock ("visible at once to every other connection" fails)
+                return {"observer_locked": {"step": i, "op": st.get("op"), "view": st.get("view"), "error": str(e)},
+                        "steps": steps}
+            steps.append({"res": res, "dump": dump})
         obs = {"steps": steps, "readback_mismatch": readback}
         if case.get("final_fresh_process"):
             for o in (views, child):
